@@ -340,8 +340,15 @@ impl Session {
         // with the NwkSKey) with FOpts left empty; the spec forbids
         // application data on port 0. Any other port piggybacks the queued
         // commands in FOpts.
+        // MHDR, FHDR without FOpts, FPort and MIC take 13 octets. Queued answers that do not fit
+        // next to the application payload wait for the next uplink.
+        let room = core::cmp::min(buf.len(), N).saturating_sub(13 + data.data.len());
+        let deferred = data.fport != 0 && self.uplink.mac_commands().len() > room;
         let (f_opts, payload) = match NonZeroU8::new(data.fport) {
-            Some(f_port) => (self.uplink.mac_commands(), Payload::Data { f_port, data: data.data }),
+            Some(f_port) => (
+                if deferred { &[][..] } else { self.uplink.mac_commands() },
+                Payload::Data { f_port, data: data.data },
+            ),
             None => {
                 if !data.data.is_empty() {
                     panic!("Error assembling packet! Data payload with fport 0 not allowed");
@@ -373,7 +380,9 @@ impl Session {
             }
             Err(e) => panic!("Error assembling packet! {:?} ", e),
         }
-        self.uplink.clear_mac_commands(true);
+        if !deferred {
+            self.uplink.clear_mac_commands(true);
+        }
         fcnt
     }
 
